@@ -1,5 +1,6 @@
 import Proofs.GAELeak
 import Proofs.GAEFlat
+import Proofs.GAEMatrix
 
 /-!
 # C17 — advantage estimation follows its definition and respects episode boundaries; every
@@ -34,6 +35,14 @@ theorem C17_gae_is_recursion (γ lam : Rat) (c : Col) :
     (gaeLoop γ lam c).length = c.T ∧
     ∀ t, t < c.T → (gaeLoop γ lam c)[t]? = some (adv γ lam c t) :=
   gaeLoop_spec γ lam c
+
+/-- the same for a whole rollout with `C` parallel columns (environments, or agents × environments),
+    which is the function the correspondence harness runs (`gae run …`): entry `(t, j)` of the
+    row-major result is `A_t` of column `j` — each column is estimated on its own -/
+theorem C17_matrix_is_recursion (γ lam : Rat) (ro : Rollout) (t j : Nat) (ht : t < ro.T) (hj : j < ro.C) :
+    (gaeMatrix γ lam ro).length = ro.T * ro.C ∧
+    (gaeMatrix γ lam ro)[t * ro.C + j]? = some (adv γ lam (ro.col j) t) :=
+  gaeMatrix_get γ lam ro t j ht hj
 
 /-- `returns = advantages + values`: entry `t` is `A_t + V_t` -/
 theorem C17_returns (γ lam : Rat) (c : Col) (hv : c.v.length = c.T) (t : Nat) (ht : t < c.T) :
